@@ -10,5 +10,5 @@ CONSTANTS
   ShrinkCols = {0, 1, 2, 3}
   AllShrinkSpans = FALSE
   StarvedSpanFix = FALSE
-INVARIANTS LayoutOK EmitCase
+INVARIANTS EmitCase
 CHECK_DEADLOCK FALSE
